@@ -354,7 +354,7 @@ pub fn run_history(steps: &[Step], o: &HistOpts, report: &mut Report, case_id: &
             Step::Delete(bands, dry) => {
                 rec.kind = "delete";
                 let names: Vec<String> = bands.iter().map(|b| band_name(*b)).collect();
-                rec.i_req = Some(run.session.push(format!("delete {} 0 0 - {} {}", if *dry { 1 } else { 0 }, names.len(), names.join(" ")).trim_end().to_string()));
+                rec.i_req = Some(run.session.push(format!("delete {} 0 {} - {} {}", if *dry { 1 } else { 0 }, crate::c05::MODEL_STRICT, names.len(), names.join(" ")).trim_end().to_string()));
                 let r = real_delete(&arch, bands, *dry, false, IceptConfig::default());
                 if r.result.starts_with("result ok") && !*dry {
                     for b in bands {
@@ -365,7 +365,7 @@ pub fn run_history(steps: &[Step], o: &HistOpts, report: &mut Report, case_id: &
             }
             Step::Gc => {
                 rec.kind = "gc";
-                rec.i_req = Some(run.session.push("delete 0 0 0 - 0".to_string()));
+                rec.i_req = Some(run.session.push(format!("delete 0 0 {} - 0", crate::c05::MODEL_STRICT)));
                 rec.real = Some(real_delete(&arch, &[], false, false, IceptConfig::default()));
             }
         }
